@@ -393,9 +393,30 @@ let exec (s : t) (verbose : bool) (f : string array) (obs : string option) : str
     (match Hashtbl.find_opt cur_handle s.cur with Some h -> lock_close h | None -> ());
     s.db <- None; s.disk <- k; s.batch <- None;
     "ok" ^ events_str ~sorted:true evs
-  | "mergebatchcrash" ->
+  | "padto" ->
+    (* the value length was computed by the harness from the file's logical size (an input of the model) *)
+    let o = match obs with Some o -> obs_head o | None -> "err nolength" in
+    (match String.split_on_char ' ' o with
+     | "ok" :: vl :: _ ->
+       let ((d, e), evs) = db_put (get_db s) (tok_bytes f.(3)) (tok_bytes ("@" ^ vl ^ ":" ^ f.(4))) in
+       s.db <- Some d;
+       (match e with None -> "ok " ^ vl | Some e -> "err " ^ eerr_name e) ^ events_str evs
+     | _ -> o)
+  | "bold" -> "err committed"   (* the handle of an earlier, committed batch stays dead *)
+  | "mergeclose" | "mergebatchcrash" | "closebg" ->
     (* judged on the implementation side only (reference mapping); the database is left closed *)
     s.db <- None; s.batch <- None; "done"
+  | "lockprobe" ->
+    (* Close; an outside holder of the lock comes and goes; another process opens the free directory and closes it *)
+    let (k, _) = db_close (get_db s) s.disk in
+    (match Hashtbl.find_opt cur_handle s.cur with Some h -> lock_close h | None -> ());
+    s.db <- None; s.disk <- k; s.batch <- None;
+    let c = { c_fsize = n_of_string f.(2); c_sync = n_of_string f.(3); c_bps = n_of_string f.(4);
+              c_io = n_of_string f.(5) } in
+    (match db_open c s.disk with
+     | (OpenOk (d, k), _) -> let (k2, _) = db_close d k in s.disk <- k2
+     | (OpenErr (_, k), _) -> s.disk <- k);
+    "ok"
   | "closefail" ->
     (* Close with a failing file sync: everything was written before, the lock is released all the same *)
     let (k, _) = db_close (get_db s) s.disk in
@@ -555,7 +576,7 @@ let exec (s : t) (verbose : bool) (f : string array) (obs : string option) : str
     else
     (match e with None -> "ok" | Some e -> "err " ^ eerr_name e) ^ " order " ^ order_s
     ^ " eff " ^ String.trim eff_s ^ " post " ^ String.trim post_s ^ events_str evs
-  | "backup" ->
+  | "backup" | "backupget" ->
     let ((d, k), evs) = db_backup (get_db s) s.disk in
     (* Backup makes the destination a copy of the data directory (stale data and hint files of an
        earlier backup are removed); a merge directory next to the destination is not touched *)
@@ -563,6 +584,17 @@ let exec (s : t) (verbose : bool) (f : string array) (obs : string option) : str
       | None -> k
       | Some old -> { k with k_merge = old.k_merge } in
     s.db <- Some d; Hashtbl.replace s.disks f.(2) k;
+    if f.(1) = "backupget" then begin
+      (* the keys the probing Gets asked for (observed); they read after the backup has let go of the lock *)
+      let o = match obs with Some o -> obs_head o | None -> "ok keys=" in
+      (match split_first o "keys=" with
+       | (_, ks) when String.trim ks <> "" ->
+         List.iter (fun kt ->
+           let ((d, _), _) = db_get (get_db s) (tok_bytes kt) in s.db <- Some d)
+           (String.split_on_char ',' (String.trim ks))
+       | _ -> ());
+      o
+    end else
     "ok" ^ events_str ~sorted:true evs
   | "pos" ->
     (match idx_get (get_db s).d_index (tok_bytes f.(2)) with
